@@ -10,7 +10,7 @@ package signing
 //@   property C01, C04
 //@   opt trustpre=on
 //@   ensures err == nil ==> a.verifier.Verify(result, a.pkm.PublicKey(), message) == nil
-//@   ensures err == nil ==> a.pkm.MSP().Accepts(hashset.NewComparable(partialSignatures.Keys()).Freeze().List())
+//@   ensures err == nil ==> a.pkm.MSP().Accepts(quorum.List()...) && forall y V :: sin(sset(quorum), y) == exists j int :: 0 <= j && j < len(partialSignatures.Keys()) && box(partialSignatures.Keys()[j]) == y
 //@   loop range(partialSignatures.Iter())
 //@     invariant true
 //@   loop range(partialSignatures.Iter())#2
